@@ -94,7 +94,14 @@ class UnloadRun:
             res = orig_deliver(fl)
             st["deliveries"] += 1
             if c.get("cut") is not None and st["deliveries"] == c["cut"]:
-                start_unload()
+                # lag: the unload is requested that many loop iterations after the delivery (tasks started by the
+                # delivery - e.g. the opening of an exit's outside sockets - are then part-way through)
+                def later(k: int) -> None:
+                    if k <= 0:
+                        start_unload()
+                    else:
+                        loop.call_soon(later, k - 1)
+                later(c.get("lag", 0))
             return res
         env.net.deliver = counting_deliver
 
@@ -189,7 +196,8 @@ class UnloadRun:
         ov, node = env.target_overlay, env.target_node
         prefix = ov.get_prefix()
         name = c["scenario"]
-        where = f"unload of {type(ov).__name__} after delivery {c.get('cut')}" if c.get("cut") is not None else \
+        where = f"unload of {type(ov).__name__} {c.get('lag', 0)} loop iteration(s) after delivery {c.get('cut')}" \
+            if c.get("cut") is not None else \
             f"unload of {type(ov).__name__} at t={c.get('cut_time')}"
 
         def check(phase: str) -> None:
@@ -256,7 +264,7 @@ class UnloadRun:
             self.fail("U4", f"{name}:socket", f"{where}: outside sockets {open_tr} still open two hours after unload")
         self.info["nontrivial"] = st["busy"]
         self.info["cls"] = f"{name}:{'busy' if st['busy'] else 'idle'}"
-        self.info["desc"] = (name, c.get("cut"), c.get("cut_time"))
+        self.info["desc"] = (name, c.get("cut"), c.get("cut_time"), c.get("lag", 0))
 
 
 def run_case(ctx: Ctx | None, case: dict) -> None:
@@ -416,7 +424,12 @@ def _cut_shard(ctx: Ctx, shard: int, nshards: int, per_scenario: int) -> None:
             step = len(ks) / per_scenario
             off = ctx.seed % max(1, int(step))
             ks = sorted({min(n, int(i * step) + off) for i in range(per_scenario)} | {0, n})
-        jobs += [{"scenario": name, "cut": k} for k in ks]
+        if name.startswith(("tunnel", "hidden")):
+            lags = [None] if per_scenario else range(0, 6)
+            jobs += [{"scenario": name, "cut": k, "lag": (k + ctx.seed) % 6 if lag is None else lag} for k in ks
+                     for lag in lags]
+        else:
+            jobs += [{"scenario": name, "cut": k} for k in ks]
     ctx.note("cut_jobs", len(jobs) if shard == 0 else 0)
     for i, case in enumerate(jobs):
         if i % nshards != shard:
